@@ -66,7 +66,7 @@ def statements2(body):
     return out
 
 
-IOPS = {"+": "add", "-": "sub", "*": "mul", "<": "lt", "<=": "le", ">": "gt", ">=": "ge", "==": "eq", "!=": "ne"}
+IOPS = {"+": "add", "-": "sub", "*": "mul", "<": "lt", "<=": "le", ">": "gt", ">=": "ge", "==": "eq", "!=": "ne", "<<": "shl", "&": "band"}
 
 
 class K:
@@ -101,14 +101,16 @@ def iexpr(k, e, ren):
         return f"(var {k.ints.index(n)})"
     if e[0] == "bin" and e[1] in IOPS:
         return f"(bin {IOPS[e[1]]} S {iexpr(k, e[2], ren)} {iexpr(k, e[3], ren)})"
+    if e[0] == "call" and e[1] == ("id", "std::size_t") and len(e[2]) == 1 and e[2][0][0] == "num":
+        return f"(lit {int(e[2][0][1])})"
     raise Untranslatable(f"integer expression {e}")
 
 
 def is_const(e, val):
     if e[0] == "num":
         return e[1].rstrip(".") == str(val)
-    if e[0] == "cast" and e[1].strip() == "T" and e[2][0] == "num":
-        return e[2][1] == str(val)
+    if e[0] == "cast" and e[1].strip() in ("T", "input_scalar_type") and e[2][0] == "num":
+        return e[2][1].rstrip(".") == str(val)
     return False
 
 
@@ -127,6 +129,10 @@ def element(k, e, ren):
         n = ren.get(e[1][1], e[1][1])
         if n in k.arrs and n in k.plain:
             return k.arrs.index(n), [iexpr(k, e[2], ren)]
+    if e[0] == "sub" and e[1][0] == "sub" and e[1][1][0] == "id":
+        n = ren.get(e[1][1][1], e[1][1][1])
+        if n in k.arrs and n in getattr(k, "plain2", set()):
+            return k.arrs.index(n), [iexpr(k, e[1][2], ren), iexpr(k, e[2], ren)]
     return None
 
 
@@ -140,6 +146,8 @@ def rexpr(k, e, ren):
         if n in k.reals:
             return f"(rvar {k.reals.index(n)})"
         raise Untranslatable(f"scalar variable {e[1]}")
+    if e[0] == "cast" and e[1].strip() == "input_scalar_type" and not is_const(e, 0) and not is_const(e, 1):
+        return rexpr(k, e[2], ren)       # conversion of a stored value to the working precision: the scalar type is abstract
     el = element(k, e, ren)
     if el:
         return f"(get {el[0]} ({' '.join(el[1])}))"
@@ -166,7 +174,7 @@ def block(k, body, ren, pre, hooks):
             out.append(f"(ite {c} {block(k, st[2], dict(ren), pre, hooks)} {block(k, st[3], dict(ren), pre, hooks)})")
             continue
         if st[0] == "for":
-            hm = re.fullmatch(r"\s*I\s+(\w+)\s*=\s*0\s*;\s*(\w+)\s*<\s*(.+?)\s*;\s*\+\+(\w+)\s*", st[1], re.S)
+            hm = re.fullmatch(r"\s*(?:I|std::size_t)\s+(\w+)\s*=\s*0\s*;\s*(\w+)\s*<\s*(.+?)\s*;\s*\+\+(\w+)\s*", st[1], re.S)
             if not hm or len({hm.group(1), hm.group(2), hm.group(4)}) != 1:
                 raise Untranslatable(f"loop header `{st[1][:80]}`")
             v = pre + hm.group(1)
@@ -196,6 +204,24 @@ def block(k, body, ren, pre, hooks):
             n = pre + m.group(1)
             ren[m.group(1)] = n
             out.append(f"(rassign {k.r(n)} {rexpr(k, pexpr(m.group(2)), ren)})")
+            continue
+        m = re.fullmatch(r"input_scalar_type (\w+)\{1\.\}", t)
+        if m:
+            n = pre + m.group(1)
+            ren[m.group(1)] = n
+            out.append(f"(rassign {k.r(n)} one)")
+            continue
+        m = re.fullmatch(r"(\w+) \*= (.*)", t)
+        if m and ren.get(m.group(1), m.group(1)) in k.reals:
+            n = ren.get(m.group(1), m.group(1))
+            out.append(f"(rassign {k.reals.index(n)} (mul (rvar {k.reals.index(n)}) {rexpr(k, pexpr(m.group(2)), ren)}))")
+            continue
+        m = re.fullmatch(r"(\w+\[\w+\]) \+= (.*)", t)
+        if m:
+            el = element(k, pexpr(m.group(1)), ren)
+            if not el:
+                raise Untranslatable(f"assignment target `{m.group(1)}`")
+            out.append(f"(rset {el[0]} ({' '.join(el[1])}) (add (get {el[0]} ({' '.join(el[1])})) {rexpr(k, pexpr(m.group(2)), ren)}))")
             continue
         m = re.fullmatch(r"(\w+) \+= (.*)", t)
         if m and ren.get(m.group(1), m.group(1)) in k.reals:
@@ -309,6 +335,79 @@ def k_affine_compose(repo):
     return block(k, norm(body), {"N": "n"}, "", hooks), k
 
 
+def k_lin_generic(repo):
+    """the generic (N >= 4) branch of linear<…>::at: the prelude is recognised sentence by sentence, the complement loop and the
+    weighted-sum nest are translated"""
+    from harness.cxx2lin import statements as st1
+    text = _src(repo, "backend/transformer/linear.hpp")
+    m = re.search(r"\}\s*else\s*\{\s*typename\s+contravariant_output_t::vector_t\s+is\s*;", text)
+    if not m:
+        raise Untranslatable("generic branch not found")
+    start = text.index("{", m.start() + 1)
+    d, e = 1, start + 1
+    while d:
+        d += {"{": 1, "}": -1}.get(text[e], 0)
+        e += 1
+    body = text[start + 1:e - 1]
+    # the index helper: axis m of corner n is offset iff bit m of n is set
+    hp, hb = find_function(text, r"_backend_index_helper")
+    if re.sub(r"\s+", " ", hb).strip() != ("return {static_cast<typename decltype(m_backend )::parent_t::contravariant_input_t::scalar_t>( "
+                                           "coord[Is] + ((n & (std::size_t(1) << Is)) ? 1 : 0) )...};"):
+        raise Untranslatable("_backend_index_helper: " + re.sub(r"\s+", " ", hb).strip()[:120])
+    k = K()
+    for n in ("D", "M"):
+        k.i(n)
+    for n in ("vs", "rs", "pc", "rv"):
+        k.a(n)
+    k.plain |= {"vs", "rs", "rv"}
+    k.plain2 = {"pc"}
+    ren = {"contravariant_output_t::dimensions": "D", "contravariant_input_t::dimensions": "D", "covariant_output_t::dimensions": "M"}
+    sents = []
+
+    def sentence(name):
+        return lambda mt, r: sents.append(name) or []
+    W = r"\s*"
+    loopD = r"for \(std::size_t n = 0; n < contravariant_output_t::dimensions; \+\+n\) \{ "
+    pre_txt = re.sub(r"\s+", " ", body)
+    pats = [
+        (r"typename contravariant_output_t::vector_t is; ", "decl-is"),
+        (loopD + r"is\[n\] = static_cast<contravariant_output_t::scalar_t>\(coord\[n\]\); \} ", "trunc-index"),
+        (r"input_scalar_type vs\[contravariant_output_t::dimensions\]; ", "decl-vs"),
+        (loopD + r"vs\[n\] = coord\[n\] - std::trunc\(coord\[n\]\); \} ", "frac"),
+        (r"input_scalar_type rs\[contravariant_output_t::dimensions\]; ", "decl-rs"),
+    ]
+    pos = 0
+    pre_txt = pre_txt.strip() + " "
+    for pat, name in pats:
+        mm = re.match(pat, pre_txt[pos:])
+        if not mm:
+            raise Untranslatable(f"generic branch prelude: expected {name} at `{pre_txt[pos:pos + 80]}`")
+        sents.append(name); pos += mm.end()
+    rest = pre_txt[pos:]
+    # rs loop (translated), pc declaration + fetch loop (sentence), rv declaration, nest (translated), return
+    mm = re.match(r"(for \(std::size_t n = 0; n < contravariant_output_t::dimensions; \+\+n\) \{ rs\[n\] = .*?; \} )", rest)
+    if not mm:
+        raise Untranslatable("complement loop")
+    rs_loop = mm.group(1); rest = rest[mm.end():]
+    fetch = (r"std::remove_reference_t<typename covariant_output_t::vector_t> pc\[std::size_t\(1\) << contravariant_input_t::dimensions\]; "
+             r"for \(std::size_t n = 0; n < std::size_t\(1\) << contravariant_input_t::dimensions; \+\+n\) \{ "
+             r"pc\[n\] = m_backend\.at\(_backend_index_helper\( is, n, std::make_index_sequence< contravariant_input_t::dimensions>\{\} \)\); \} "
+             r"typename covariant_output_t::vector_t rv; ")
+    mm = re.match(fetch, rest)
+    if not mm:
+        raise Untranslatable(f"corner fetch: `{rest[:120]}`")
+    sents.append("corner-bit-m"); rest = rest[mm.end():]
+    if not rest.strip().endswith("return rv;"):
+        raise Untranslatable("generic branch does not end in `return rv`")
+    nest = rest.strip()[:-len("return rv;")]
+    # names that stand for template constants inside expressions
+    def conv(txt):
+        return txt.replace("contravariant_output_t::dimensions", "D").replace("contravariant_input_t::dimensions", "D").replace("covariant_output_t::dimensions", "M")
+    s1 = block(k, conv(rs_loop), {}, "", [])
+    s2 = block(k, conv(nest), {}, "", [])
+    return f"(lingen ({' '.join(sents)}) {seq([s1, s2])})", k
+
+
 def _with_identity(repo, fn):
     text = _src(repo, "algebra/affine.hpp")
     ptxt, body = find_function(text, r"\b" + fn)
@@ -335,6 +434,7 @@ KERNELS = {
     "identity": (lambda repo: k_identity(repo), "algebra/matrix.hpp identity()"),
     "affine_apply": (k_affine_apply, "algebra/affine.hpp operator*(vector), matrix product inlined"),
     "affine_compose": (k_affine_compose, "algebra/affine.hpp operator*(affine), matrix product inlined"),
+    "lin_generic": (k_lin_generic, "backend/transformer/linear.hpp at(), generic branch (N >= 4): complement loop and weighted-sum nest"),
     "translation": (lambda repo: _with_identity(repo, "translation"), "algebra/affine.hpp translation(), identity() inlined"),
     "scaling": (lambda repo: _with_identity(repo, "scaling"), "algebra/affine.hpp scaling(), identity() inlined"),
 }
